@@ -189,6 +189,9 @@ class Welford(Metric):
       raise TypeError(f"Expected keyword argument '{self.argname}'")
     values: tp.Union[int, float, jax.Array] = kwargs[self.argname]
     count = 1 if isinstance(values, (int, float)) else values.size
+    if count == 0:
+      # nothing was seen: the mean / variance of an empty batch are NaN
+      return
     original_count = self.count.value
     self.count.value += count
     delta = (
